@@ -98,6 +98,9 @@ type zOp struct {
 	Sub     []zMapping `json:"sub,omitempty"`    // descriptor_map of the submission under test
 	Decode  []zDecode  `json:"decode,omitempty"`
 	Mut     string     `json:"mut,omitempty"`    // which mutation produced the submission (statistics only)
+	// nildef: a definition unmarshalled WITHOUT schema validation (null entries become nil pointers)
+	NilRaw string      `json:"nilRaw,omitempty"` // JSON text (replay)
+	RawDef interface{} `json:"rawDef,omitempty"` // for the model: descs / srs with nulls, nestedNull
 	// fields
 	CredMap [][]interface{} `json:"credMap,omitempty"` // [descriptor id, credential index] in the order given to the model
 }
@@ -940,6 +943,109 @@ func zMutations(rng *rand.Rand, sub []zMapping, nCreds int) map[string][]zMappin
 	return out
 }
 
+// opNilDef: what Match / CredentialsRequired / Build / ResolveConstraintsFields do with nil entries
+func (r *zRun) opNilDef(nilRaw string, wallet []int) {
+	var pd PresentationDefinition
+	if err := json.Unmarshal([]byte(nilRaw), &pd); err != nil {
+		r.t.Fatalf("nil-entry definition does not unmarshal: %v", err)
+	}
+	var generic map[string]interface{}
+	json.Unmarshal([]byte(nilRaw), &generic)
+	// model view: clean entries through zDef on a copy without the nil entries is not possible entry-wise, so render per entry
+	descs := []interface{}{}
+	for _, d := range pd.InputDescriptors {
+		if d == nil {
+			descs = append(descs, nil)
+		} else {
+			one := zDef(&PresentationDefinition{InputDescriptors: []*InputDescriptor{d}})
+			descs = append(descs, one["descs"].([]interface{})[0])
+		}
+	}
+	nestedNull := false
+	var scan func(s *SubmissionRequirement)
+	scan = func(s *SubmissionRequirement) {
+		for _, n := range s.FromNested {
+			if n == nil {
+				nestedNull = true
+			} else {
+				scan(n)
+			}
+		}
+	}
+	var strip func(s *SubmissionRequirement) *SubmissionRequirement
+	strip = func(s *SubmissionRequirement) *SubmissionRequirement {
+		c := *s
+		c.FromNested = nil
+		for _, n := range s.FromNested {
+			if n != nil {
+				c.FromNested = append(c.FromNested, strip(n))
+			}
+		}
+		return &c
+	}
+	srs := []interface{}{}
+	for _, s := range pd.SubmissionRequirements {
+		if s == nil {
+			srs = append(srs, nil)
+		} else {
+			scan(s)
+			srs = append(srs, zSR(strip(s)))
+		}
+	}
+	vcs := []vc.VerifiableCredential{}
+	cm := map[string]vc.VerifiableCredential{}
+	for _, i := range wallet {
+		vcs = append(vcs, r.creds[i])
+		cm["d1"] = r.creds[i]
+	}
+	guard := func(f func() string) (out string) {
+		defer func() {
+			if p := recover(); p != nil {
+				out = "panic:" + zPanicSite(p)
+			}
+		}()
+		return f()
+	}
+	errCls := func(err error) string {
+		switch {
+		case err == nil:
+			return "ok"
+		case strings.Contains(err.Error(), "contains null"):
+			return "err:nil-entry"
+		case strings.Contains(err.Error(), "failed to match presentation definition") || err.Error() == "":
+			return "err:nomatch"
+		}
+		return "err:" + zErrClass(err)
+	}
+	m := guard(func() string { _, _, err := pd.Match(vcs); return errCls(err) })
+	req := guard(func() string { return fmt.Sprint(pd.CredentialsRequired()) })
+	b := guard(func() string {
+		bd := pd.PresentationSubmissionBuilder()
+		bd.AddWallet(zHolder, vcs)
+		_, _, err := bd.Build("ldp_vp")
+		if err != nil {
+			return "err:nomatch" // Build joins the per-wallet Match errors
+		}
+		return "ok"
+	})
+	f := guard(func() string { _, err := pd.ResolveConstraintsFields(cm); return errCls(err) })
+	r.stats["nildef"]++
+	r.emit(zOp{Op: "nildef", NilRaw: nilRaw, Wallet: append([]int{}, wallet...),
+		RawDef: map[string]interface{}{"id": pd.Id, "descs": descs, "srs": srs, "nestedNull": nestedNull}},
+		fmt.Sprintf("nildef match=%s required=%s build=%s fields=%s", m, req, b, f))
+}
+
+var zNilDefs = []string{
+	`{"id":"x","input_descriptors":[null]}`,
+	`{"id":"x","input_descriptors":[{"id":"d1","constraints":{}},null]}`,
+	`{"id":"x","input_descriptors":[{"id":"d1","group":["A"],"constraints":{}}],"submission_requirements":[null]}`,
+	`{"id":"x","input_descriptors":[{"id":"d1","group":["A"],"constraints":{}}],"submission_requirements":[{"rule":"all","from":"A"},null]}`,
+	`{"id":"x","input_descriptors":[{"id":"d1","group":["A"],"constraints":{}}],"submission_requirements":[{"rule":"pick","count":1,"from":"A"},null]}`,
+	`{"id":"x","input_descriptors":[{"id":"d1","group":["A"],"constraints":{}}],"submission_requirements":[{"rule":"all","from_nested":[null]}]}`,
+	`{"id":"x","input_descriptors":[{"id":"d1","group":["A"],"constraints":{}}],"submission_requirements":[{"rule":"pick","min":1,"from_nested":[{"rule":"all","from":"A"},{"rule":"all","from_nested":[null]}]}]}`,
+	`{"id":"x","input_descriptors":[],"submission_requirements":[null]}`,
+}
+
 // ---------- generators
 
 var zTypes = []string{"AlphaCredential", "BetaCredential", "GammaCredential"}
@@ -1454,6 +1560,10 @@ func (r *zRun) replayFile(path string) {
 			if live {
 				r.opFields(op.CredMap)
 			}
+		case "nildef":
+			if live {
+				r.opNilDef(op.NilRaw, op.Wallet)
+			}
 		}
 	}
 }
@@ -1502,6 +1612,16 @@ func TestVerifC12(t *testing.T) {
 	}
 	rng := rand.New(rand.NewSource(seed*7919 + 12))
 	for c := 0; c < nCases; c++ {
+		if c%500 == 250 {
+			// definitions with nil entries, against the credentials of a small case
+			srcs := []zCredSrc{zGenCred(rng, 0), zGenCred(rng, 1)}
+			if r.opCase(`{"id":"pd","input_descriptors":[{"id":"d1","constraints":{}}]}`, srcs) {
+				for _, nd := range zNilDefs {
+					r.opNilDef(nd, zGenWallet(rng, 2))
+				}
+			}
+			continue
+		}
 		if c%8000 == 4000 {
 			r.hostileRegexCase(36 + rng.Intn(8))
 			r.stats["hostile-regex-case"]++
